@@ -503,7 +503,43 @@ func genHistory(t *rapid.T) history {
 	n := rapid.IntRange(1, 7).Draw(t, "more")
 	for i := 0; i < n; i++ {
 		c := genCase(t)
-		switch rapid.IntRange(0, 3).Draw(t, "relation") {
+		switch rapid.IntRange(0, 4).Draw(t, "relation") {
+		case 4:
+			// the controller says 'nothing here' for one index / card / profile (echoing it), and is then asked for a NEIGHBOURING or
+			// LOWER one, which it has: what it said about one record says nothing about another (an event log that has restarted,
+			// a card that was deleted and its neighbour not)
+			prev := h.Steps[len(h.Steps)-1]
+			op := rapid.SampledFrom([]string{"GetEvent", "GetEvent", "GetCardByIndex", "GetCardByID", "GetTimeProfile"}).Draw(t, "related.op")
+			x := uint32(rapid.IntRange(2, 100000).Draw(t, "related.x"))
+			a := replyCase{Call: spec.Call{Op: op, Serial: prev.Call.Serial, Index: x, Card: x, Profile: uint8(2 + x%250)}, Cfg: prev.Cfg}
+			a.Reply = gen.Reply(t, a.Call)
+			l := spec.Responses[op]
+			switch op {
+			case "GetEvent":
+				a.Reply = make([]byte, 64)
+				spec.Header(a.Reply, 0x17, l.Code, a.Call.Serial)
+				spec.PutLE32(a.Reply[l.Field("index").Off:], x)
+				a.Reply[l.Field("type").Off] = 0xff
+			case "GetCardByIndex", "GetCardByID":
+				spec.PutLE32(a.Reply[l.Field("card").Off:], rapid.SampledFrom([]uint32{0, 0xffffffff}).Draw(t, "related.sentinel"))
+			case "GetTimeProfile":
+				a.Reply[l.Field("profile").Off] = 0
+			}
+			h.Steps = append(h.Steps, a)
+			y := []uint32{x - 1, x / 2, 1, x + 1, x}[rapid.IntRange(0, 4).Draw(t, "related.y")]
+			c = replyCase{Call: spec.Call{Op: op, Serial: prev.Call.Serial, Index: y, Card: y, Profile: uint8(2 + y%250)}, Cfg: prev.Cfg}
+			c.Reply = gen.Payload(t, l, 0x17, c.Call.Serial, 0, false)
+			switch op {
+			case "GetEvent":
+				spec.PutLE32(c.Reply[l.Field("index").Off:], y)
+				if c.Reply[l.Field("type").Off] == 0xff || c.Reply[l.Field("type").Off] == 0 {
+					c.Reply[l.Field("type").Off] = 1
+				}
+			case "GetCardByID":
+				spec.PutLE32(c.Reply[l.Field("card").Off:], y)
+			case "GetTimeProfile":
+				c.Reply[l.Field("profile").Off] = c.Call.Profile
+			}
 		case 0: // same operation and controller as the previous call, another reply
 			prev := h.Steps[len(h.Steps)-1]
 			c.Call.Op, c.Call.Serial = prev.Call.Op, prev.Call.Serial
